@@ -158,6 +158,7 @@ import BGV
 #print axioms BGV.C11_entry
 #print axioms BGV.C11_findAllVertexPredecessors
 #print axioms BGV.C11_entry_all
+#print axioms BGV.C11_findGeodesics
 
 -- C12
 #print axioms BGV.C12_dijkstra_correct
